@@ -4,6 +4,12 @@ import json, subprocess, sys
 
 CHECKS = {
  # id: (level, engine, technique, text, note, design_ref)
+ "C03": ("exploration", "E2-programs", "bounded exhaustive program enumeration x configuration grid on the real VM, plus single-deviation schedule exploration for type-checker termination",
+         "All control-flow token sequences up to length 6 (7) crossed with a grid of iteration / fork / gas limits are executed by the real VM under a step-budget watchdog and every stored state is checked against the four stated bounds; all stack-safe storage read-mask-write sequences up to length 6 (7) are analysed under the canonical order and under every single deviation at the unification order points to decide termination of the whole pipeline.",
+         "limits above 3 not crossed with the program space; halting decided by a poll budget (20 000 polls for <= 30-byte programs) plus the supervisor's wall-clock stall detection", "3/C03"),
+ "C06": ("exploration", "E2-programs", "bounded exhaustive program enumeration with literal storage keys from a boundary set",
+         "All token sequences up to length 4 (5) over literal-key reads/writes for 10 boundary keys plus control-flow and stack context tokens; whenever the tool executed such an access (and the reference EVM says it does not fault) and the analysis succeeds, the layout must contain an entry at exactly that 256-bit index.",
+         "premise partly taken from the tool (executed offsets) so that exploration defects (C08) cannot raise a C06 alarm", "3/C06"),
  "C07": ("model_checking", "E2-programs", "bounded exhaustive program enumeration; reference EVM path enumeration validated path-by-path against the real VM's stored states",
          "For every all-constant, stack-safe, loop-free program of the stated families the reference EVM enumerates all forced-branch paths; the real VM's stored final states are evaluated by an independent evaluator and must match the reference paths as a multiset of (stack, memory words, per-key ordered write lists). This is translation validation of each explored path, exhaustively over the bounded program space.",
          "trusts ref_evm + evaluator + ref_u256; environment fixed to zero storage/memory; operands from the boundary set", "3/C07"),
@@ -16,9 +22,15 @@ CHECKS = {
  "C09": ("exploration", "E1-flat", "bounded exhaustive enumeration of expression trees against a reference folder",
          "Every tree of the stated grammar (operators x boundary operand pairs; all trees to depth 3, wrapped and unwrapped) is folded by the real constant folder and compared structurally with a reference folder written on the harness's own tree type with independent 256-bit arithmetic; idempotence, size bookkeeping and totality are checked on each. Complete within the grammar, which contains every one-operator mistake (wrong constructor, wrong operand order, wrong boundary rule).",
          "trusts ref_u256 (cross-checked against Python big integers at setup) and the crate's PartialEq on values; says nothing about operands outside the boundary set", "3/C09"),
+ "C13": ("fault_enumeration", "E5-interruption", "exhaustive enumeration of interruption points (every poll index of every listed run) with a counting watchdog",
+         "For 33 programs that spend their time in each polled loop x 6 poll intervals, the poll count P of an uninterrupted run is measured and every k in 0..=P is used as the point from which the watchdog answers stop; the result must be a stopped-by-watchdog error and never a layout. Stage-level poll counts are compared with independently measured work.",
+         "runs use the canonical iteration order so that poll indices denote execution points; SimpleContract is stratified in the quick tier", "3/C13"),
  "C16": ("exploration", "E1-flat", "complete enumeration of the property's finite evidence domain (all ordered pairs and triples) on the real merge",
          "The property's own domain (41 pieces of evidence) is finite: all 1 681 ordered pairs and all 68 921 ordered triples are pushed through the real unification::merge and compared after normalisation. This decides the property on its whole stated domain. The non-associative triples of the pinned tree (dynamic bytes / dynamic arrays absorbing mutually conflicting words) are listed one by one as known findings; any other triple is a violation.",
          "normalisation (conflicts collapsed, variables up to the emitted equalities) is the statement's own equivalence; packed encodings are outside the stated domain", "3/C16"),
+ "C18": ("exploration", "E2-programs", "bounded exhaustive program enumeration x value-size limits with a recursive node-count oracle",
+         "All stack-safe sequences up to length 5 (6) over 13 value-growing tokens x size limits {1,2,3,5,8(,250)} x iteration limits; every instruction result in every stored state must have <= limit nodes and every node of every value (after execution, in the exported view, after lifting, after folding) must report its true node count.",
+         "export wrappers are not instruction results; limits above 8 only in thorough", "3/C18"),
  "C19": ("model_checking", "E3-history", "explicit-state model checking (stateright BFS, iterative deepening) of all operation histories of the real structures against reference models",
          "All histories up to depth 6 (7 thorough) of the real DisjointSet over a 4-element universe with a non-idempotent data monoid, and up to depth 6 (8) of the real VectorMap, are explored with state matching; every transition runs the real method and a naive reference model in lock-step and every state is compared through all observers, twice. Exhaustive for the property's stated bound (length 6, 4 elements).",
          "state key includes the real object's internal shape (Debug) so merged states have equal futures; reference models are a partition with multisets and a BTreeMap", "3/C19"),
